@@ -25,6 +25,10 @@ pub struct BbCase {
     /// Every build target declares an input directory (so that state is computed and stored).
     #[serde(default)]
     pub with_inputs: bool,
+    /// Builds rewrite a file in the input directory of one of their (already finished) build
+    /// dependencies: in a one-shot run nothing is watching, so nothing may run twice.
+    #[serde(default)]
+    pub touch_dep_input: bool,
 }
 
 const READ_ST: &str =
@@ -50,6 +54,11 @@ pub fn bb_build_script(case: &BbCase, i: usize) -> String {
             id = id,
             d = g.ids(d)
         ));
+    }
+    if case.touch_dep_input {
+        if let Some(d) = g.edges(i).into_iter().find(|&d| g.targets[d].kind == Kind::Build && g.targets[d].proj == g.targets[i].proj) {
+            s.push_str(&format!("echo \"changed by {}\" >> in_{}/x.txt\nsleep 0.1\n", id, d));
+        }
     }
     let ms = case.sleep_ms.get(i).copied().unwrap_or(0);
     if ms > 0 {
@@ -315,7 +324,11 @@ pub struct BbParams {
 
 impl BbParams {
     fn with_inputs(&self) -> bool {
-        self.rendezvous
+        self.rendezvous || self.touch_dep_input()
+    }
+    /// C08 cases (failures on, no rendezvous) with an even seed byte.
+    fn touch_dep_input(&self) -> bool {
+        self.failures && !self.rendezvous && self.max_n == 9
     }
 }
 
@@ -376,6 +389,7 @@ pub fn bb_case(p: BbParams) -> impl Strategy<Value = BbCase> {
                 qualified,
                 rendezvous,
                 with_inputs: p.with_inputs(),
+                touch_dep_input: p.touch_dep_input(),
             }
         })
 }
